@@ -349,8 +349,8 @@ Proof.
   intros [Hok Hfr HC HW HQ _ HG _] Hpw Hcp Hco Hwf.
   pose proof (PW_PWc s [] Hpw) as Hpwc.
   destruct o; try (destruct Hco; fail); cbn [step].
-  - apply ex_np. apply handle_submit_array_tot; assumption.
-  - destruct (bad_graph_rq _ _) eqn:Eb; [reflexivity|]. apply ex_np. apply handle_submit_graph_tot; try assumption. exact (bad_graph_rq_none _ _ Eb).
+  - destruct (bad_submit_lengths _ _); [reflexivity|]. apply ex_np. apply handle_submit_array_tot; assumption.
+  - destruct (bad_graph_rq _ _) eqn:Eb; [reflexivity|]. destruct (dead_dep _ _ _); [reflexivity|]. apply ex_np. apply handle_submit_graph_tot; try assumption. exact (bad_graph_rq_none _ _ Eb).
   - reflexivity.
   - apply close_total. exact Hok.
   - destruct Hcp as [Hmn Hrw]. apply ex_np. apply handle_cancel_tot; assumption.
@@ -365,8 +365,8 @@ Proof.
   intros [Hok Hfr HC HW HQ _ HG _] Hpw Hcp Hco Hwf.
   pose proof (PW_PWc s [] Hpw) as Hpwc.
   destruct o; try (destruct Hco; fail); cbn [step].
-  - apply handle_submit_array_tot; assumption.
-  - destruct (bad_graph_rq _ _) eqn:Eb; [eexists; reflexivity|]. apply handle_submit_graph_tot; try assumption. exact (bad_graph_rq_none _ _ Eb).
+  - destruct (bad_submit_lengths _ _); [eexists; reflexivity|]. apply handle_submit_array_tot; assumption.
+  - destruct (bad_graph_rq _ _) eqn:Eb; [eexists; reflexivity|]. destruct (dead_dep _ _ _); [eexists; reflexivity|]. apply handle_submit_graph_tot; try assumption. exact (bad_graph_rq_none _ _ Eb).
   - eexists; reflexivity.
   - apply handle_close_tot. exact Hok.
   - destruct Hcp as [Hmn Hrw]. apply handle_cancel_tot; assumption.
